@@ -544,6 +544,85 @@ theorem render_keeps_existing_name (k a n : String) (base : Option V) (o : V) (h
           simp [setMeta, removeMeta, hmd, getMetaStr, V.get?, hlk, hlkne]
   · cases h
 
+/-! ### the apply step is a function of the template's own data -/
+
+/-- Whatever list of templates is being composed, whatever happens to the XR update and whatever
+the API server answers: every object sent for the composed resource of template j (the object
+created, or the JSON merge-patch body left by the apply options) and the object the API server
+then holds are `sentFor` of template j alone – its own patches, merge options and existing
+resource – applied to its own rendered resource `renderTpl xr tpls[j]`, which is a function of
+the XR and template j. No other template of the composition enters. -/
+theorem sent_of_own_template (xr : V) (tpls : List Tpl) (uf : Bool) (s : Sent)
+    (hs : s ∈ (composePT xr tpls uf).sent) :
+    ∃ (h : s.idx < tpls.length) (r : Rendered), renderTpl xr tpls[s.idx] = some r ∧ r.rendered = true ∧
+      sentFor tpls[s.idx] r.cd = .ok (s.body, s.stored) := by
+  cases hr : renderAll xr tpls with
+  | none => simp [composePT, hr] at hs
+  | some rs =>
+    have hlen := renderAll_length xr tpls rs hr
+    have hmem : s ∈ (applyLoop 0 (tpls.zip rs)).2.1 := by
+      unfold composePT at hs
+      rw [hr] at hs
+      dsimp only at hs
+      split at hs
+      · simp at hs
+      · split at hs
+        · exact hs
+        · split at hs
+          · exact hs
+          · exact hs
+    obtain ⟨j, hj, h1, h2, h3⟩ := applyLoop_sent (tpls.zip rs) 0 s hmem
+    simp only [Nat.zero_add] at h1
+    have hjt : j < tpls.length := by simp [hlen] at hj; omega
+    have hjr : j < rs.length := by omega
+    simp only [List.getElem_zip] at h2 h3
+    subst h1
+    exact ⟨hjt, rs[s.idx], renderAll_get xr tpls rs hr s.idx hjt hjr, h2, h3⟩
+
+/-- Purity of the apply loop, for every two lists of templates (in particular the composition as
+written and the one-template composition made of template j alone): if the same template sits
+at position j of the one and at position j' of the other, then what is sent for it, and what the
+API server holds afterwards, is the same in both reconciles of the same XR – the merge options
+and patches of the other templates, their number and order, the XR-update fault and the API
+server's answers make no difference. -/
+theorem apply_independent_of_other_templates (xr : V) (tpls tpls' : List Tpl) (uf uf' : Bool) (s s' : Sent)
+    (hs : s ∈ (composePT xr tpls uf).sent) (hs' : s' ∈ (composePT xr tpls' uf').sent)
+    (hsame : ∀ (h : s.idx < tpls.length) (h' : s'.idx < tpls'.length), tpls[s.idx] = tpls'[s'.idx]) :
+    s.body = s'.body ∧ s.stored = s'.stored := by
+  obtain ⟨h, r, hr, _, hsf⟩ := sent_of_own_template xr tpls uf s hs
+  obtain ⟨h', r', hr', _, hsf'⟩ := sent_of_own_template xr tpls' uf' s' hs'
+  have ht := hsame h h'
+  rw [ht] at hr hsf
+  rw [hr'] at hr
+  simp only [Option.some.injEq] at hr
+  subst hr
+  rw [hsf'] at hsf
+  simp only [Except.ok.injEq, Prod.mk.injEq] at hsf
+  exact ⟨hsf.1.symm, hsf.2.symm⟩
+
+/-- A template whose patches carry no policy contributes no apply option: what is sent for its
+existing resource is the rendered resource itself (every patched field REPLACES the stored one). -/
+theorem no_policy_replaces (t : Tpl) (cd : V) (hex : t.refName ≠ "")
+    (hnp : ∀ p ∈ t.patches, p.policy = none) :
+    sentFor t cd = .ok (cd, mergePatchV (t.cur.getD .null) cd) := by
+  have key : ∀ (ps : List Patch) (cur d : V), (∀ p ∈ ps, p.policy = none) → applyOpts cur d ps = .ok d := by
+    intro ps cur d
+    induction ps with
+    | nil => intro _; rfl
+    | cons p ps ih =>
+      intro h
+      have hp : p.applyOpt = none := by
+        unfold Patch.applyOpt
+        rw [h p List.mem_cons_self]
+        split <;> rfl
+      unfold applyOpts
+      rw [hp]
+      exact ih fun q hq => h q (List.mem_cons_of_mem _ hq)
+  unfold sentFor
+  have hne : (t.refName == "") = false := by simpa using hex
+  rw [hne]
+  simp [key t.patches _ cd hnp]
+
 /-! ### non-vacuity: the hypotheses are satisfiable by non-trivial states -/
 
 /-- an optional patch with a transform and a missing source -/
@@ -576,5 +655,54 @@ example :
     let t2 : Tpl := { t1 with name := some "b", patches := [], nameGen := .name "gen-1" }
     ((composePT xr [t1, t2] false).writes.map (·.target)) = ["xr", "1", "xr"] ∧
     (composePT xr [t1, t2] false).rendered = [false, true] := by decide
+
+/-- Two templates write `spec.forProvider.groups` of resources that both exist and hold the stale
+list [a, stale] while the XR now says [a]: the first carries `appendSlice` (mergo's verdict for its
+operands is in its own oracle table), the second carries no policy. What is sent – and what the
+API server then holds – keeps `stale` for the first and replaces the list for the second: the
+first template's merge option does not reach the second one. -/
+example :
+    let xr : V := .obj [("apiVersion", .str "example.org/v1"), ("kind", .str "XThing"),
+      ("metadata", .obj [("name", .str "my-xr"), ("uid", .str "u"), ("labels", .obj [("crossplane.io/composite", .str "my-xr")])]),
+      ("spec", .obj [("groups", .arr [.str "a"])])]
+    let base : V := .obj [("apiVersion", .str "example.org/v1"), ("kind", .str "Thing")]
+    let cur : V := .obj [("apiVersion", .str "example.org/v1"), ("kind", .str "Thing"), ("metadata", .obj [("name", .str "cd")]),
+      ("spec", .obj [("forProvider", .obj [("groups", .arr [.str "a", .str "stale"])])])]
+    let orc : V := .obj [("dst", .arr [.str "a", .str "stale"]), ("src", .arr [.str "a"]), ("out", .arr [.str "a", .str "stale"])]
+    let to : List Seg := [.field "spec", .field "forProvider", .field "groups"]
+    let pA : Patch := { type := "FromCompositeFieldPath", fromPath := some ⟨"spec.groups", some [.field "spec", .field "groups"]⟩,
+                        toPath := some ⟨"spec.forProvider.groups", some to⟩, combine := none, xfs := [],
+                        policy := some ⟨none, some ⟨none, some true⟩⟩, mergeOrc := [], applyOrc := [orc] }
+    let pR : Patch := { pA with policy := none, applyOrc := [] }
+    let t1 : Tpl := { name := some "primary", base := some base, patches := [pA], refKind := "Thing", refApiVersion := "example.org/v1",
+                      refName := "cd-0", nameGen := .keep, applyOutcome := .ok, cur := some cur }
+    let t2 : Tpl := { t1 with name := some "replica", patches := [pR], refName := "cd-1" }
+    let is (o : V) (want : V) : Bool := match getValue o to with
+      | .ok v => v == want
+      | .error _ => false
+    let r := composePT xr [t1, t2] false
+    (r.sent.map fun s => (s.idx, is s.body (.arr [.str "a", .str "stale"]), is s.body (.arr [.str "a"]))) = [(0, true, false), (1, false, true)] ∧
+    (r.stored.map fun o => (is o (.arr [.str "a", .str "stale"]), is o (.arr [.str "a"]))) = [(true, false), (false, true)] ∧
+    r.writes.map (·.target) = ["xr", "0", "1", "xr"] := by decide
+
+/-- an apply option that fails (mergo refuses to merge a list into a string) abandons the apply of
+that resource before anything is sent, and the reconcile with it -/
+example :
+    let xr : V := .obj [("apiVersion", .str "example.org/v1"), ("kind", .str "XThing"),
+      ("metadata", .obj [("name", .str "my-xr"), ("uid", .str "u"), ("labels", .obj [("crossplane.io/composite", .str "my-xr")])]),
+      ("spec", .obj [("groups", .arr [.str "a"])])]
+    let base : V := .obj [("apiVersion", .str "example.org/v1"), ("kind", .str "Thing")]
+    let cur : V := .obj [("apiVersion", .str "example.org/v1"), ("kind", .str "Thing"), ("metadata", .obj [("name", .str "cd")]),
+      ("spec", .obj [("groups", .str "scalar")])]
+    let orc : V := .obj [("dst", .str "scalar"), ("src", .arr [.str "a"])]
+    let pA : Patch := { type := "FromCompositeFieldPath", fromPath := some ⟨"spec.groups", some [.field "spec", .field "groups"]⟩,
+                        toPath := none, combine := none, xfs := [], policy := some ⟨none, some ⟨some true, none⟩⟩, mergeOrc := [], applyOrc := [orc] }
+    let pB : Patch := { pA with toPath := some ⟨"spec.groups", some [.field "spec", .field "groups"]⟩ }
+    let t1 : Tpl := { name := some "a", base := some base, patches := [pB], refKind := "Thing", refApiVersion := "example.org/v1",
+                      refName := "cd-0", nameGen := .keep, applyOutcome := .ok, cur := some cur }
+    let r := composePT xr [t1] false
+    r.err = "apply" ∧ r.sent.length = 0 ∧ r.writes.map (·.target) = ["xr"] ∧
+    -- without a toFieldPath the patch contributes no apply option: the rendered resource is sent as it is
+    (composePT xr [{ t1 with patches := [pA] }] false).err = "" := by decide
 
 end Xp.C10
